@@ -52,7 +52,7 @@ HexLower == {"a", "b", "c", "d", "e", "f"}
 HexUpper == {"A", "B", "C", "D", "E", "F"}
 Lowers   == HexLower \cup {"g", "p", "z", "PAD"}
 Uppers   == HexUpper \cup {"G", "Z"}
-Puncts   == {"@", "!", "$", ":", "[", "]", ".", "-", "_", "=", "/", "+", "%"}
+Puncts   == {"@", "!", "$", "#", ":", "[", "]", ".", "-", "_", "=", "/", "+", "%"}
 Specials == {"sp", "nul", "u2", "u4"}
 KnownChars == Digits \cup Lowers \cup Uppers \cup Puncts \cup Specials
 
@@ -80,7 +80,7 @@ V6OkAtoms == {"v6ok1", "v6ok2", "v6ok3", "v6ok4", "v6ok5", "v6ok6", "v6ok7", "v6
 V6NoAtoms == {"v6no1", "v6no2", "v6no3", "v6no4", "v6no5", "v6no6", "v6no7", "v6no8", "v6no9", "v6no10",
               "v6no11", "v6no12", "v6no13", "v6no14", "v6no15", "v6no16", "v6no17", "v6no18"}
 V6Atoms == V6OkAtoms \cup V6NoAtoms
-PortAtoms == {"p0", "p80", "p65535", "p65536", "p99999", "p000080", "p00080", "p+80"}
+PortAtoms == {"p0", "p80", "p65535", "p65536", "p99999", "p000080", "p00080", "p+80", "p-1"}
 OpaqueAtoms == {"b43", "b42", "b44", "b43std", "b43pad"}
 
 Chars(a) ==
@@ -94,6 +94,9 @@ Chars(a) ==
   [] a = "p000080" -> <<"0", "0", "0", "0", "8", "0">>
   [] a = "p00080" -> <<"0", "0", "0", "8", "0">>
   [] a = "p+80" -> <<"+", "8", "0">>
+  [] a = "p-1" -> <<"-", "1">>
+  [] a = "ipv4lz" -> <<"0", "1", ".", "2", ".", "3", ".", "4">>               \* leading zero in an octet (1*3DIGIT allows it)
+  [] a = "ipv4max" -> <<"2", "5", "5", ".", "2", "5", "5", ".", "2", "5", "5", ".", "2", "5", "5">>
   [] a = "b43" -> Rep("A", 20) \o <<"-", "_">> \o Rep("a", 10) \o Rep("7", 11)
   [] a = "b42" -> Rep("A", 19) \o <<"-", "_">> \o Rep("a", 10) \o Rep("7", 11)
   [] a = "b44" -> Rep("A", 21) \o <<"-", "_">> \o Rep("a", 10) \o Rep("7", 11)
@@ -293,7 +296,7 @@ KeyOf(form, fault) == IF fault = "" THEN "valid:" \o form ELSE "fault:" \o fault
 \* the speller
 \* --------------------------------------------------------------------------
 FreeAlphabet == {"@", "!", "$", ":", "[", "]", ".", "-", "7", "a", "A", "_", "=", "/", "+", "sp", "nul", "u2", "u4"}
-LocalAtoms == {"a", "A", "7", "_", "=", "/", "+", ".", "-", "sp", "nul", "u2", "u4", "[", "PAD"}
+LocalAtoms == {"a", "A", "7", "_", "=", "/", "+", ".", "-", "sp", "nul", "u2", "u4", "[", "PAD", "@", "!"}   \* incl. a sigil inside the localpart
 HostAtoms  == {"a", "A", "7", ".", "-", "_", "u2", "PAD"}
 TailAtoms  == {":", "a", "]"}
 UnbracketedV6 == {"v6ok2", "v6ok5", "v6ok7", "v6ok11"}     \* IPv6 literals written without their brackets (never a host)
@@ -301,12 +304,12 @@ UnbracketedV6 == {"v6ok2", "v6ok5", "v6ok7", "v6ok11"}     \* IPv6 literals writ
 \* atoms that may follow at a position, with the position they lead to and their cost in deviations
 Moves(p, k) ==
     CASE p = "free"     -> {[a |-> a, to |-> "free", cost |-> 0] : a \in FreeAlphabet}
-      [] p = "start"    -> {[a |-> a, to |-> "local", cost |-> IF a = "$" THEN 1 ELSE 0] : a \in {"@", "!", "$"}}
+      [] p = "start"    -> {[a |-> a, to |-> "local", cost |-> IF a \in {"$", "#"} THEN 1 ELSE 0] : a \in {"@", "!", "$", "#"}}   \* "#": a room alias shape
       [] p = "local"    -> (IF k < 2 THEN {[a |-> a, to |-> "local", cost |-> IF k = 0 /\ a = "a" THEN 0 ELSE 1] : a \in LocalAtoms} ELSE {})
                            \cup {[a |-> ":", to |-> "host", cost |-> 0]}
                            \cup (IF k = 0 THEN {[a |-> a, to |-> "end", cost |-> 1] : a \in OpaqueAtoms} ELSE {})
       [] p = "host"     -> (IF k < 2 THEN {[a |-> a, to |-> "host", cost |-> IF k = 0 /\ a = "a" THEN 0 ELSE 1] : a \in HostAtoms} ELSE {})
-                           \cup (IF k = 0 THEN {[a |-> a, to |-> "hostdone", cost |-> 1] : a \in {"ipv4", "ipv4big"} \cup UnbracketedV6}
+                           \cup (IF k = 0 THEN {[a |-> a, to |-> "hostdone", cost |-> 1] : a \in {"ipv4", "ipv4big", "ipv4lz", "ipv4max"} \cup UnbracketedV6}
                                                \cup {[a |-> "[", to |-> "v6", cost |-> 1]} ELSE {})
                            \cup {[a |-> ":", to |-> "port", cost |-> 0]}
       [] p = "v6"       -> {[a |-> a, to |-> "v6close", cost |-> 0] : a \in V6Atoms}
